@@ -28,27 +28,30 @@ StepOK(ev, t) ==
   LET N == ev.N
       x == ev.obs[t]
       cur == ev.steps[t]
-      prevz == IF t = 1 THEN [i \in 1..N |-> ev.prev0] ELSE ev.steps[t - 1].z
       prevlw == IF t = 1 THEN [i \in 1..N |-> 0] ELSE ev.steps[t - 1].lw
-  IN \E zext \in [1..N -> V] :
-       LET lwext == [i \in 1..N |-> prevlw[i] - NLE(zext[i], x)]
+  IN \* only e_i = NLE(z_i, x) of the (unlogged) extension draw z_i matters for the weights: e_i = 1 iff z_i = (x + 2) % K
+     \E e \in [1..N -> {1, 2}] :
+       LET lwext == [i \in 1..N |-> prevlw[i] - e[i]]
            res == EssLow(lwext, N)
            prevzs == IF t = 1 THEN 1 ELSE ev.steps[t - 1].zs
            m == MaxNeg(lwext, N)
+           Compatible(z, ee) == (ee = 1) <=> (z = (x + 2) % K)
        IN IF res
           THEN /\ \A i \in 1..N : cur.lw[i] = 0
-               /\ \E anc \in [1..N -> 1..N] :
-                    \A j \in 1..N : ev.rejuv \/ cur.z[j] = zext[anc[j]]
+               /\ \A j \in 1..N : ev.rejuv \/ \E a \in 1..N : Compatible(cur.z[j], e[a])               \* some ancestor explains the copy
                /\ cur.zs * Pow2(m) = prevzs * 4 * Sum([i \in 1..N |-> Pow2(m + lwext[i])], 1..N)     \* estimate *= mean weight
           ELSE /\ \A i \in 1..N : cur.lw[i] = lwext[i]
-               /\ \A i \in 1..N : ev.rejuv \/ cur.z[i] = zext[i]
+               /\ \A i \in 1..N : ev.rejuv \/ Compatible(cur.z[i], e[i])
                /\ cur.zs = prevzs * 4 * N                                                             \* estimate unchanged
 Failing(ev) ==
   {t \in 1..Len(ev.steps) : ~StepOK(ev, t)}
+(* steps at which the recorded run must have resampled (weights reset although the extension changed them) *)
+Fired(ev) == {t \in 1..Len(ev.steps) : (\A i \in 1..ev.N : ev.steps[t].lw[i] = 0) /\ ev.steps[t].zs # (IF t = 1 THEN 1 ELSE ev.steps[t - 1].zs) * 4 * ev.N}
 VARIABLE l
 Init == l = 1
 Step == /\ l <= Len(Events)
         /\ LET f == Failing(Events[l]) IN IF f = {} THEN TRUE ELSE PrintT(<<"REJECT", l, f>>)
+        /\ LET g == Fired(Events[l]) IN IF g = {} THEN TRUE ELSE PrintT(<<"FIRED", l, g>>)
         /\ l' = l + 1
 Spec == Init /\ [][Step]_l
 Done == (l = Len(Events) + 1) => PrintT("ALLCHECKED")
